@@ -4,9 +4,14 @@
    ([pattern = list (option Z)]), EVERY extent value and EVERY index type of 1..64 bits, signed or
    unsigned ([wf_ity t]); the only arithmetic hypothesis is the standard's: the size of the index
    space ([product] of the extents, resp. REQUIRED-SPAN-SIZE for layout_stride) is representable in
-   the index type.  Model functions (Model.v) on the left, closed forms (Spec.v) on the right. *)
+   the index type.  Model functions (Model.v) on the left, closed forms (Spec.v) on the right.
+   Sections: extents (slots, constructors, operator==, products) -- layout_left/right -- layout_stride
+   (formula, bounds, required_span_size, injectivity, canonical strides, default constructor) --
+   layout_transpose -- mdspan/mdarray access (offsets and buffer contents), conversions,
+   submdspan_extents (index / full / pair slices) -- span (first/last/subspan, algebra, as_bytes) --
+   necessity of the hypotheses and totality for wide unsigned index types -- non-vacuity. *)
 From Tetl Require Import Lib.Base C19.Slices C19.Model C19.Spec C19.ProofsArith C19.ProofsExt C19.ProofsSpec
-  C19.ProofsLayout C19.ProofsMore C19.ProofsSpan C19.ProofsEnum C19.ProofsTop C19.ProofsSub C19.ProofsBuf C19.ProofsSpan2 C19.ProofsCanon.
+  C19.ProofsLayout C19.ProofsMore C19.ProofsSpan C19.ProofsEnum C19.ProofsTop C19.ProofsSub C19.ProofsBuf C19.ProofsSpan2 C19.ProofsCanon C19.ProofsReq.
 From Coq Require Import Permutation.
 Local Open Scope Z_scope.
 
@@ -196,6 +201,32 @@ Theorem C19_layout_stride_in_bounds : forall t e ss idx, wf_ity t -> wf_ext t e 
             /\ 0 <= o < stride_required (extents_list t e) ss.
 Proof. exact strided_map_in_bounds. Qed.
 Print Assumptions C19_layout_stride_in_bounds.
+
+(* required_span_size() of the strided mapping (the member defined by fix 2c4c8ad) is REQUIRED-SPAN-SIZE of
+   [mdspan.layout.stride.expo] whenever that is representable -- zero extents included, no overflow on the way;
+   with C19_layout_stride_in_bounds: every offset lies below the mapping's own required_span_size() *)
+Theorem C19_layout_stride_required : forall t e ss, wf_ity t -> wf_ext t e ->
+  Forall (fun x => 0 <= x) (extents_list t e) ->
+  Forall (fun s => 0 <= s <= imax t) ss ->
+  stride_required (extents_list t e) ss <= imax t ->
+  strided_required t (strided_ctor t e ss) = Some (stride_required (extents_list t e) ss).
+Proof. exact strided_required_spec. Qed.
+Print Assumptions C19_layout_stride_required.
+
+Theorem C19_layout_stride_stride : forall t e ss r, wf_ity t -> length ss = rank e ->
+  (strided_stride (strided_ctor t e ss) r = Contract <-> (rank e <= r)%nat)
+  /\ ((r < rank e)%nat -> strided_stride (strided_ctor t e ss) r = Ok (cast t (nth r ss 0))).
+Proof. exact strided_stride_spec. Qed.
+Print Assumptions C19_layout_stride_stride.
+
+Theorem C19_layout_stride_access_below_required : forall t e ss idx, wf_ity t -> wf_ext t e ->
+  in_range idx (extents_list t e) -> length ss = rank e ->
+  Forall (fun s => 0 <= s <= imax t) ss -> stride_required (extents_list t e) ss <= imax t ->
+  exists o rq, strided_map t (strided_ctor t e ss) idx = Some o
+               /\ strided_required t (strided_ctor t e ss) = Some rq
+               /\ 0 <= o < rq.
+Proof. exact strided_access_below_required. Qed.
+Print Assumptions C19_layout_stride_access_below_required.
 
 (* injective under the uniqueness precondition of [mdspan.layout.stride.cons]: positive strides and
    a permutation of the dimensions along which stride >= previous stride * previous extent *)
